@@ -1,6 +1,6 @@
 /-
   Front/Scan.lean — executable mirror of src/pest/grammar/scanner.py (after the `fix:`
-  commits edfb74e … 09ee215 of /repo), method by method.
+  commits edfb74e … 21d7862 of /repo), method by method.
 
   The scanner only ever moves forward, so its state is the *remaining* text together with the
   two counters of the Python object (`pos`, `start`) and the tokens emitted so far:
